@@ -528,7 +528,7 @@ func (e *Exec) mergeOutcomes(outs []Outcome, base int) []Outcome {
 				}
 				a := acc[i].st
 				a.Ret, o.st.Ret = acc[i].vals, o.vals
-				m, ok := mergeStates(a, o.st, base)
+				m, ok := mergeStates(a, o.st, base, o.at)
 				if ok {
 					e.merges++
 					acc[i] = Outcome{st: m, kind: o.kind, vals: m.Ret, at: o.at}
